@@ -210,9 +210,9 @@ var alphaImprove = []float64{1, 3}
 
 // genDg4Improve: all digraphs on 4 nodes, pair in {absent,1,3}, one rotating
 // container/ID-map combination per graph, lite checks; the thorough tier runs
-// all 3^12 graphs, the quick tier the graphs with index = 1 modulo 8.
+// all 3^12 graphs, the quick tier the graphs with index = 1 modulo 12.
 func genDg4Improve(g *vlib.G) {
-	blockStride = vlib.Pick(g, 8, 1)
+	blockStride = vlib.Pick(g, 12, 1)
 	blocks(g, 4, true, pairs(4, true), alphaImprove, 4, 1)
 	blockStride = 1
 }
